@@ -111,3 +111,39 @@ def relogin(sid="s2", resume="accept", sm=True, resumable=True, smid="smid-$CONN
     if roster:
         st += [A("iq", child="query", c=c), S("<iq type='result' id='$ID'><query xmlns='jabber:iq:roster'/></iq>", c=c)]
     return st
+
+
+def timed_out(journal):
+    """an await (optional or not) ended by its timeout: under heavy machine load that says nothing about the client"""
+    return any(e["ev"] == "await_failed" and e.get("timeout") for e in journal)
+
+
+def rerun_scaled(binary, case, scale=10):
+    """plays one case again, alone, with every timeout multiplied: a wall-clock timeout is never a verdict, so a violation observed in a history
+    in which an await timed out is only reported when it shows again with generous timeouts"""
+    import copy
+    c = copy.deepcopy(case)
+    c["timeout"] = int(c.get("timeout", 3000) * scale)
+    for st in c["steps"]:
+        if "timeout" in st:
+            st["timeout"] = int(st["timeout"] * scale)
+    outs, crashes = run_cases(binary, [c])
+    return outs[0] if outs else None
+
+
+def judged(binary, case, out, judge_fn):
+    """judge_fn(journal, viol, stats) -> error text or None; re-judges on a generous replay when the first verdict may stem from a timeout"""
+    import collections
+    v, st = [], collections.Counter()
+    err = judge_fn(out["journal"], v, st)
+    if v and timed_out(out["journal"]):
+        out2 = rerun_scaled(binary, case)
+        if out2 and out2.get("stalled", -1) < 0:
+            v2, st2 = [], collections.Counter()
+            err2 = judge_fn(out2["journal"], v2, st2)
+            st2["rejudged_with_generous_timeouts"] += 1
+            if not v2:
+                st2["verdicts_withdrawn_after_generous_replay"] += 1
+            return v2, st2, err2
+        return [], st, "a history with a violation and a timed-out await could not be replayed with generous timeouts"
+    return v, st, err
